@@ -601,3 +601,19 @@ pub mod small {
         sophia_api::test_dataset_impl!(light_dataset, LightDataset);
     }
 }
+
+#[cfg(sophia_verif)]
+impl<TI: TermIndex> GenericLightDataset<TI> {
+    /// Verification hook: access to the underlying term index.
+    pub fn verif_term_index(&self) -> &TI {
+        &self.terms
+    }
+}
+
+#[cfg(sophia_verif)]
+impl<TI: GraphNameIndex> GenericFastDataset<TI> {
+    /// Verification hook: access to the underlying term index.
+    pub fn verif_term_index(&self) -> &TI {
+        &self.terms
+    }
+}
